@@ -98,6 +98,13 @@ CHECKS["C11"] = ("exploration", "arrival-order sequence monitor at the decryptin
     "Concurrent senders on one real client-kind channel with explicit renewals against the scripted server, and the real server's read/publish responses against the renewing independent client; the peer's arrival-order log must show +1 per chunk (or the wrap) and no interleaving of multi-chunk messages. Evidence lists hook-point hits and runs with a sender parked across a renewal.",
     "arrival order on a TCP connection = order of writes; hook delays only at points where pre-emption is possible anyway", "3/C11")
 
+CHECKS["C06"] = ("exploration", "wire-observing limit monitor: the independent peer on one side of the connection sees every chunk gopcua writes and sends the largest chunks/messages it is entitled to, over a grid of asymmetric buffer sizes and message limits, gopcua in client role, server role and as stock server",
+    "For configurations from {8192..2^20}^4 x message limits x chunk counts: every chunk gopcua puts on the wire must fit the receive buffer its receiver advertised, the server's ACK must respect the Hello, everything the peer may send must be accepted, and a message beyond the peer's limits must be refused by the sender with none of its chunks on the wire.",
+    "policy None (fixed 24 byte chunk header); thorough covers the full 6^4 buffer grid for both roles", "3/C06")
+CHECKS["C13"] = ("exploration", "hostile-stream monitor: malformed handshakes, OPN junk, short/garbled chunks, floods of unfinished messages and wrong-direction services against bare gopcua channels in child processes; liveness (heartbeat clock), crash and buffered-bytes (verif accessor) oracles",
+    "Raw and semi-valid byte streams from the independent peer to a server-kind and a client-kind channel living in a child process; the child must not die, Receive must return after the peer closed, the bytes buffered for incomplete messages must stay within 8 x MaxChunkCount x ReceiveBufSize and no single Receive may allocate more than 512 MiB.",
+    "post-open streams under policy None (secured hostile chunks are C09's subject)", "3/C13")
+
 NOT_YET = {}
 
 
